@@ -23,6 +23,7 @@
 EXTENDS Integers, Sequences, FiniteSets, TLC
 
 CONSTANTS Stacks,         \* set of component stacks: sequences of subsets of {"req","rsrc","resp"}
+          Indeps,         \* subset of BOOLEAN: settings of independent_middleware
           Targets,        \* subset of {"routed", "sink", "unrouted"}
           MaxHooks,       \* up to this many before hooks and after hooks on a routed responder
           InitRegs,       \* set of registration sequences present before the setup phase
@@ -60,7 +61,7 @@ Call(site, c, act, cls, res, ok, x) ==
     [site |-> site, c |-> c, act |-> act, cls |-> cls, res |-> res, ok |-> ok, x |-> x]
 Idx == Len(calls) + 1            \* the index the call being made will have
 
-Init == /\ shape \in Stacks /\ indep \in BOOLEAN /\ target \in Targets
+Init == /\ shape \in Stacks /\ indep \in Indeps /\ target \in Targets
         /\ nb \in (IF target = "routed" THEN 0..MaxHooks ELSE {0})
         /\ na \in (IF target = "routed" THEN 0..MaxHooks ELSE {0})
         /\ reg \in {Defaults \o r : r \in InitRegs}
